@@ -86,14 +86,18 @@ def run(ctx, chk):
         chk.require(f["vis"] != "pub", "U1", "PriceLevel.%s:private" % f["name"], L.level_adt["span"], "field %s of PriceLevel is pub: the closed-world argument fails" % f["name"])
 
     # ---------------- U2 / U5
-    seen = LR.rule_removal_returns(ctx, chk, L, "U2", "U2")
+    seen = LR.rule_removal_returns(ctx, chk, L, "U2", "U2", seq=True)
     b, res, _ = L.paths("update_order")
     fn = b.defp
     upd = db.adt("orders::update::OrderUpdate")
     arg = ("param", 2)
     price_self = ("field", ("val", SELF), None, L.price_field)
+    from ..level import seq_view
     for r in res:
         if r.kind != "return":
+            continue
+        r = seq_view(L, r)
+        if r is None:
             continue
         arm = r.facts.variant.get(arg)
         if arm is None:
@@ -125,7 +129,9 @@ def run(ctx, chk):
                                 "with the level's own price the order must be amended in place, but the path removes it", describe_path(r))
         # U5 + statistics on removal paths
         if takes and not pushes:
-            others = [x[0] for x in qev if x[0] not in ("take",)]
+            # a preceding lookup of the same id is the same order sequentially
+            take_id = takes[0][2][2][1]
+            others = [x[0] for x in qev if x[0] not in ("take",) and not (x[2][1] == "Q.find" and x[2][2][1] == take_id)]
             chk.require(len(takes) == 1 and not others, "U5", "%s:%s:removal" % (fn, arm), b.span, "queue events on a removal path: %s" % [x[0] for x in qev], describe_path(r))
             chk.require(len(stat_rm) == 1, "U2", "%s:%s:stat" % (fn, arm), b.span, "%d record_order_removed calls on a removal path" % len(stat_rm), describe_path(r))
         # ---------------- U3 amend
@@ -156,9 +162,10 @@ def run(ctx, chk):
             chk.require(ok1, "U3", "%s:%s:%s:display" % (fn, arm, vt), b.span,
                         "after the amend the order displays %s, expected %s" % (short(d_new), short(want_d)), describe_path(r))
             chk.require(ok2, "U3", "%s:%s:%s:hidden" % (fn, arm, vt), b.span, "the amend changes the hidden quantity to %s" % short(h_new), describe_path(r))
-            if isinstance(o2, tuple) and o2[0] == "agg":
-                chk.require(o2[2] == vt, "U3", "%s:%s:%s:variant" % (fn, arm, vt), b.span, "the amend turns a %s into a %s" % (vt, o2[2]))
-                fd = dict(o2[3])
+            v2, fd2 = R.view(o2, r.facts)
+            if fd2 is not None and o2 != o:
+                chk.require(v2 == vt, "U3", "%s:%s:%s:variant" % (fn, arm, vt), b.span, "the amend turns a %s into a %s" % (vt, v2))
+                fd = fd2
                 for f in R.identity_fields(vt):
                     chk.require(unsign(fd.get(f)) == ("field", o, vt, f), "U3", "%s:%s:%s:%s" % (fn, arm, vt, f), b.span,
                                 "identity field %s of the amended order is %s" % (f, short(fd.get(f))), describe_path(r))
@@ -191,12 +198,13 @@ def run(ctx, chk):
         rr = [q for q in wr.walk(refb, args=[agg("AmendKind", amend_kind(V), []), disp, hid, newq]) if q.kind == "return"]
         for p in ps:
             o2 = p.value
+            v2, fd2 = R.view(o2, p.facts)
             if o2 == subj:
                 d2, h2 = disp, hid
-            elif isinstance(o2, tuple) and o2[0] == "agg":
-                if not chk.require(o2[2] == V, "U4", "%s:%s:variant" % (wb.defp, V), wb.span, "returns a %s" % o2[2]):
+            elif fd2 is not None:
+                if not chk.require(v2 == V, "U4", "%s:%s:variant" % (wb.defp, V), wb.span, "returns a %s" % v2):
                     continue
-                fd = dict(o2[3])
+                fd = fd2
                 for f in R.identity_fields(V):
                     chk.require(unsign(fd.get(f)) == ("field", subj, V, f), "U4", "%s:%s:%s" % (wb.defp, V, f), wb.span,
                                 "field %s is %s, expected self.%s" % (f, short(fd.get(f)), f))
